@@ -94,6 +94,7 @@ PROBES = [
     ("io-denylist-sql-text-functions", "SELECT * FROM query('SELECT 1')", ""),
     ("no-raw-text-fast-paths", "SELECT 1 -- read_parquet", ""),
     ("reject-backslash-before-quote", "SELECT 'a\\' , 'b'", ""),
+    ("single-table-fast-path-keywords", "SELECT a.id FROM cpu a WHERE a.id IN (SELECT id\nFROM\nmem b)", "db1"),
 ]
 FIXBITS = 0
 
@@ -113,6 +114,8 @@ def detect_fixes(outs):
         bits |= 16
     if o[5].get("status") == 400 and "Backslash before a quote" in (o[5].get("err") or ""):
         bits |= 32
+    if o[6].get("executed") is not None and o[6]["executed"].count("read_parquet(") == 2:
+        bits |= 64
     return bits
 
 
@@ -816,6 +819,8 @@ UNSUPPORTED = [
     ("identifier-case", "SELECT id, tag FROM CPU", ["db1"]),
     ("identifier-case", "SELECT id, tag FROM Cpu", ["", "db1"]),
     ("missing-measurement-empty-result", "SELECT * FROM nosuch", ["", "db1"]),
+    ("header-fast-path-misses-references", "SELECT * FROM mem a1 WHERE a1.id IN (SELECT id\nFROM\tmem a2)", ["db1"]),
+    ("header-fast-path-misses-references", "SELECT a1.id FROM cpu a1 FULL\nOUTER\nJOIN cpu a2 USING (id)", ["db1"]),
     ("table-kind-statement-unrewritten", "TABLE cpu", ["", "db1"]),
     ("table-kind-statement-unrewritten", "DESCRIBE cpu", ["db1"]),
     ("from-first-statement", "FROM cpu", ["", "db1"]),
